@@ -65,6 +65,63 @@ for depth in range(1, 7):
     for nest in range(3):
         run(depth, nest)
 
+# a thread blocked INSIDE A C CALL made directly by one of its own instructions (no Python frame below it): `with lock:` on a held
+# lock (the C __enter__ is called by the instruction that opens the with, which can be the last one of the enclosing block's
+# protected range), lock.acquire(), a C-level membership test; 0..2 enclosing with blocks
+def run_c_blocked(kind, nest):
+    lock = threading.Lock(); lock.acquire()
+    ready = threading.Event(); box = {}
+    def body():
+        box["frame"] = sys._getframe(0)
+        if nest == 0:
+            box["m"] = []; ready.set()
+            if kind == "with-lock":
+                with lock: pass
+            else:
+                lock.acquire(); lock.release()
+        elif nest == 1:
+            with S("a") as a:
+                box["m"] = [a]; ready.set()
+                if kind == "with-lock":
+                    with lock: pass
+                else:
+                    lock.acquire(); lock.release()
+        else:
+            with S("a") as a:
+                with S("b") as b:
+                    box["m"] = [a, b]; ready.set()
+                    if kind == "with-lock":
+                        with lock: pass
+                    else:
+                        lock.acquire(); lock.release()
+    t = threading.Thread(target=body); t.start(); ready.wait()
+    # wait until the thread sits still at one instruction of body()
+    last = None; still = 0
+    for _ in range(400):
+        cur = sys._current_frames().get(t.ident)
+        pos = (id(cur), cur.f_lasti) if cur is not None else None
+        still = still + 1 if (pos == last and cur is box["frame"]) else 0
+        last = pos
+        if still >= 3: break
+        time.sleep(0.005)
+    with warnings.catch_warnings(record=True) as w:
+        warnings.simplefilter("always")
+        st = stackscope.extract(t)
+    key = ("blocked-in-c-call", kind, nest)
+    leg.case(key, True)
+    fr = [f for f in st.frames if f.pyframe is box["frame"]]
+    if st.error is not None or w or len(fr) != 1 or st.frames[-1].pyframe is not box["frame"] or \
+            [c.obj for c in fr[0].contexts] != box["m"] or any(c.is_exiting for c in fr[0].contexts):
+        leg.violation(key, f"thread blocked in a C call ({kind}, {nest} enclosing with blocks): contexts "
+                           f"{[c.obj for c in fr[0].contexts] if fr else None} expected {box['m']}; error={st.error!r} "
+                           f"warnings={[str(x.message)[:80] for x in w]}")
+    lock.release(); t.join()
+
+
+for kind in ("with-lock", "acquire"):
+    for nest in range(3):
+        run_c_blocked(kind, nest)
+
 # racing thread
 stop = False
 def worker():
